@@ -15,7 +15,7 @@
  'ghost_calls': ['C08_IDX'],
  'kf': ['C08_strlcpy_return'], 'kf_probe_case': {'C08_strlcpy_return': {'C08_FIXOFF': 0}},
  'assumptions': ['strlcpy: dst and src are distinct objects'],
- 'params': {'C08_FIXOFF': [0, 3]},
+ 'params': {'C08_FIXOFF': [0]}, 'params_thorough': {'C08_FIXOFF': [0, 3]},
  'witness': {'unwind': 8},
 } @*/
 #include "c08_harness.h"
